@@ -179,6 +179,9 @@ func (st *store) exec(line string) (out string) {
 	if ws[0] == "bigstream" {
 		return runBigStream(line)
 	}
+	if ws[0] == "straggler" {
+		return runStraggler(line)
+	}
 	if ws[0] == "chain" {
 		return runAliasChain(line)
 	}
